@@ -5,3 +5,4 @@ pub mod util;
 pub mod drive;
 pub mod irdump;
 pub mod scan;
+pub mod builder_ops;
